@@ -117,6 +117,7 @@ Inductive event :=
 | ETxn (ops : list kvev)        (* several operations in one revision (lease revoke) *)
 | EOther                        (* a write outside the watched prefix *)
 | ECompact                      (* a write outside the prefix, then compaction at that revision *)
+| ECompactAt (r : nat)          (* compaction at revision r (rejected by etcd, i.e. no effect, unless compact < r <= current) *)
 | ELoadOk                       (* loadAll succeeds *)
 | ELoadFail                     (* loadAll fails (Get error) *)
 | EWatchStart                   (* the Watch call reaches etcd *)
@@ -135,6 +136,10 @@ Definition step (fixed : bool) (w : world) (e : event) : option world :=
   | ETxn ops => Some (set_store w (commit s ops))
   | EOther => Some (set_store w (commit_other s))
   | ECompact => let s' := commit_other s in Some (set_store w (mkStore (s_log s') (s_rev s')))
+  | ECompactAt c =>
+      if ((s_compact s <? c) && (c <=? s_rev s))%nat
+      then Some (set_store w (mkStore (s_log s) c))
+      else Some w
   | ELoadOk =>
       match r_pc r with
       | PcInit | PcClosed =>
